@@ -6,7 +6,7 @@ META = dict(
                 "sortable/cacheable flags), and parse + real matchers together must report a line iff it satisfies the query.",
     functions=["fzf.parseTerms", "fzf.BuildPattern", "fzf.(*Pattern).MatchItem", "fzf.(*Pattern).extendedMatch", "fzf.(*Pattern).iter", "fzf.(*Pattern).buildCacheKey",
                "fzf.buildResult", "algo.* matchers", "algo.NormalizeRunes", "strings.ReplaceAll/ToLower/HasPrefix/HasSuffix (real code)"],
-    outside=["TAB characters typed into a query", "ill-formed queries (lone operators)", "--no-extended", "the filter driver in Run (goroutines)", "queries/lines beyond the bounds"],
+    outside=["TAB characters typed into a query", "ill-formed queries (lone operators)", "the filter driver in Run (goroutines)", "queries/lines beyond the bounds"],
     models=["(*regexp.Regexp).Split for the literal pattern \" +\" -> zzv.M_regexp_SplitSpaces (refuses any other pattern)", "strings.Index naive model"],
     assumptions=["term texts over {a,b,A,é}; lines over {a,b,A,e,é,space}"],
 )
@@ -24,4 +24,7 @@ def suites(tier):
     for cfg in product(fuzzy=[0, 1], case=[0], norm=[0, 1]):
         cfg.update(sets=1 if q else 2, alts=2 if not q else 1, len=1 if q else 2, nmax=2 if q else 3)
         jobs.append(dict(id=jid("glue", cfg), func="zzH_C01_glue", cfg=cfg))
+    for cfg in product(fuzzy=[0, 1], case=[0, 1, 2], norm=[0, 1]):
+        cfg.update(qmax=2, nmax=2 if q else 3)
+        jobs.append(dict(id=jid("noext", cfg), func="zzH_C01_noext", cfg=cfg))
     return [src_suite("src", jobs)]
